@@ -367,6 +367,65 @@ func goScriptList(sl []slEntryT) (gtab.ScriptListInfo, error) {
 	return res, nil
 }
 
+// shareOptional re-homes the Optional slices of all language systems (and the
+// Lookups slices of all features) as ADJACENT sub-slices of one backing array
+// each, the way a caller who assembles tables in memory can hold them: every
+// slice has spare capacity, and the memory behind it is its neighbour (or a
+// sentinel).  Returns a function that reports the first difference between the
+// arrays now and at the time of the call ("" if none).
+func shareOptional(info *gtab.Info) func() string {
+	const sentinelF, sentinelL = gtab.FeatureIndex(0xABCD), gtab.LookupIndex(0xDCBA)
+	var tags []language.Tag
+	for t, f := range info.ScriptList {
+		if f != nil {
+			tags = append(tags, t)
+		}
+	}
+	sort.Slice(tags, func(i, j int) bool { return tags[i].String() < tags[j].String() })
+	var fa []gtab.FeatureIndex
+	for _, t := range tags {
+		fa = append(fa, info.ScriptList[t].Optional...)
+	}
+	fa = append(fa, sentinelF, sentinelF)
+	pos := 0
+	for _, t := range tags {
+		f := info.ScriptList[t]
+		n := len(f.Optional)
+		f.Optional = fa[pos : pos+n] // cap reaches to the end of the shared array
+		pos += n
+	}
+	var la []gtab.LookupIndex
+	for _, f := range info.FeatureList {
+		if f != nil {
+			la = append(la, f.Lookups...)
+		}
+	}
+	la = append(la, sentinelL, sentinelL)
+	pos = 0
+	for _, f := range info.FeatureList {
+		if f != nil {
+			n := len(f.Lookups)
+			f.Lookups = la[pos : pos+n]
+			pos += n
+		}
+	}
+	fa0 := append([]gtab.FeatureIndex(nil), fa...)
+	la0 := append([]gtab.LookupIndex(nil), la...)
+	return func() string {
+		for i := range fa {
+			if fa[i] != fa0[i] {
+				return fmt.Sprintf("shared feature-index array changed at %d: %d -> %d", i, fa0[i], fa[i])
+			}
+		}
+		for i := range la {
+			if la[i] != la0[i] {
+				return fmt.Sprintf("shared lookup-index array changed at %d: %d -> %d", i, la0[i], la[i])
+			}
+		}
+		return ""
+	}
+}
+
 func goFeatureList(fl []featureT) gtab.FeatureListInfo {
 	res := make(gtab.FeatureListInfo, len(fl))
 	for i, f := range fl {
